@@ -16,7 +16,7 @@ ROOT = os.path.dirname(os.path.dirname(os.path.abspath(__file__)))
 OUT = os.path.join(ROOT, "mc", "sched", "src", "bin")
 
 COMP_OBJ = {"A": 0, "B": 1, "C": 2}
-RES_OBJ = {"R0": 10, "R1": 11}
+RES_OBJ = {"R0": 10, "R1": 11, "R2": 12}
 
 
 def parse_task(spec):
@@ -290,6 +290,8 @@ def pools():
     # resource conflicts through the resource that is NOT the head of the world's resource list, with tables in use; entry
     # view lists of two components (the table holding the contended entity lacks the first-declared one)
     P["PR"] = [["wA/r=wR1", "wB/r=wR1"], ["wA/r=rR1", "wB/r=wR1"], ["wA/r=wR1", "rA", "wB/r=rR1"], ["rC/r=wR1", "wA", "wB/r=wR1"],
+               # three resources: the viewed ones leave a gap in list order (R0 and R2 viewed, R1 not)
+               ["wA/r=wR2,rR0", "wB/r=wR2"], ["-/r=wR2,rR0", "-/r=wR2"], ["wA/r=rR0,wR2", "wB/r=rR2"], ["wA/r=wR2", "wB/r=rR2,rR0"], ["wA/r=rR0,rR2", "wB/r=wR2", "rA/r=rR2"],
                ["wC/e=wB,wA", "wA"], ["wC/e=wA,wB", "wB"], ["wA", "wC/e=rB,rA"], ["rC/e=pB,pA", "rA"], ["wC/e=wB,wA/par", "wA/par"]]
     P["PC"] = [
         ["wC", "rA", "wA"], ["wB,rC", "rA", "wA,wC"], ["wC/f=hA", "wC/f=nA", "rC"], ["wB", "wC", "rA", "wA"],
@@ -317,7 +319,7 @@ def main():
     # and tasks that conflict on a component and on a resource at once
     quick += [("PQ", s) for s in P["PQ"]]
     quick += [("PM", s) for s in (["wB", "rA,wB"], ["wB", "rA,rB"], ["wC", "rA,rB,wC"], ["rA,wC", "rB,wC"], ["rA,wB", "wB"], ["-/r=wR1", "-/r=rR0,wR1"], ["-/r=wR1", "-/r=rR0,rR1"], ["wC", "wB", "rA,rB,wC"])]
-    quick += [("PR", s) for s in (["wA/r=wR1", "wB/r=wR1"], ["wA/r=rR1", "wB/r=wR1"], ["wC/e=wB,wA", "wA"], ["wA", "wC/e=rB,rA"])]
+    quick += [("PR", s) for s in (["wA/r=wR2,rR0", "wB/r=wR2"], ["-/r=wR2,rR0", "-/r=wR2"], ["wA/r=wR1", "wB/r=wR1"], ["wA/r=rR1", "wB/r=wR1"], ["wC/e=wB,wA", "wA"], ["wA", "wC/e=rB,rA"])]
     quick += [("P8", s) for s in (["wA", "rA", "wA", "rA"], ["wB", "wA", "rA", "wA"], ["rA", "wA", "wB", "wA"])]
     qset = {tuple(s) for _, s in quick}
     extra = []
